@@ -1,12 +1,208 @@
-/- Driver family `pixel`: C19 — pixel decoding.  (stub: replace `family`) -/
+/-
+Driver family `pixel`: C19 — pixel decoding.
+
+Case lines (harness/src/fam/pixel.rs):
+  <id> px <fmt> <w> <h> <payload>          3DS texture through a single-texture CTPK (`ctpk::read`)
+  <id> etc <alpha 0|1> <w> <h> <payload>   `mila::decode` (ETC1 / ETC1A4)
+  <id> cf <RGBA8|RGB5A3|CI8|Unrecognized> <payload>     `ColorFormat::decode`
+  <id> cfi <fmt> <data> <palette>          `ColorFormat::decode_indexed`
+  <id> ci8 <w> <h> <palette> <image>       CI8 image + RGB5A3 palette through a single-image TPL
+  <id> probe <fmt> <w> <h>                 payload-size probe: canonical CTPK with an all-zero payload of
+                                           exactly the required size, and the same file one byte shorter
+Implementation line: `<id> <dev|release> ok <hex>` | `… err <Class>` | `… panic` (probe: two classes).
+The profile is echoed from the implementation line: it selects the model's arithmetic profile.
+-/
 import Driver.Common
+import MilaModel.Model.Containers
+import MilaModel.Spec.Morton
+import MilaModel.Spec.Linear
+import MilaModel.Spec.Etc1Rules
+import MilaModel.Spec.TexContainers
 
 namespace Driver.Pixel
-open Mila
+open Mila Mila.Pixel
+
+/-! ### fast hex for large payloads -/
+
+def hexNib (c : UInt8) : UInt8 :=
+  if c ≥ 48 && c ≤ 57 then c - 48 else if c ≥ 97 && c ≤ 102 then c - 87 else if c ≥ 65 && c ≤ 70 then c - 55 else 0
+
+def bufOfHex (s : String) : Buf := Id.run do
+  if s == "-" then return #[]
+  let u := s.toUTF8
+  let n := u.size / 2
+  let mut out : Buf := Array.mkEmpty n
+  for i in [0:n] do
+    out := out.push (hexNib (u.get! (2 * i)) * 16 + hexNib (u.get! (2 * i + 1)))
+  return out
+
+def hexChar (n : UInt8) : Char := if n < 10 then Char.ofNat (48 + n.toNat) else Char.ofNat (87 + n.toNat)
+
+def hexOfBuf (b : Buf) : String := Id.run do
+  if b.size == 0 then return "-"
+  let mut s : String := ""
+  for x in b do
+    s := (s.push (hexChar (x / 16))).push (hexChar (x % 16))
+  return s
+
+def profileOf (s : String) : Profile := if s == "release" then .wrapping else .checked
+
+def resBuf : Res Buf → String
+  | .ok b => "ok " ++ hexOfBuf b
+  | .err e => "err " ++ e.name
+  | .panic => "panic"
+
+def resClass {α : Type} : Res α → String
+  | .ok _ => "ok"
+  | .err e => "err." ++ e.name
+  | .panic => "panic"
+
+/-! ### the canonical single-texture CTPK of the `px` / `probe` ops (mirrors `pixel.rs::single_ctpk`) -/
+
+def le (k n : Nat) : Buf := (leBytes k n).toArray
+
+def singleCtpk (fmt w h : Nat) (payload : Buf) : Buf :=
+  le 4 0x4B505443 ++ le 2 1 ++ le 2 1 ++ le 4 0x44 ++ le 4 payload.size ++ le 4 0 ++ le 4 0 ++ le 8 0 ++
+  le 4 0x40 ++ le 4 payload.size ++ le 4 0 ++ le 4 fmt ++ le 2 w ++ le 2 h ++ le 1 1 ++ le 1 0 ++ le 2 0 ++
+  le 4 0 ++ le 4 0 ++ #[0x70, 0, 0, 0] ++ payload
+
+/-! ### specification oracles (independent of the model) -/
+
+open Spec.Linear Spec.Morton in
+/-- Every pixel of `out` is an admissible rendering of its texel (Z-order placement, per-channel
+linear expansion within one step). -/
+def judgeTiled (l : Layout) (w h : Nat) (payload out : Buf) : String := Id.run do
+  if out.size ≠ 4 * w * h then return s!"FAIL output has {out.size} bytes, expected {4 * w * h}"
+  for y in [0:h] do
+    for x in [0:w] do
+      let v := leAt payload (tileOffset w x y * l.bytes) l.bytes
+      let o := (y * w + x) * 4
+      if ¬ pixelOk l v (out.getD o 0).toNat (out.getD (o + 1) 0).toNat (out.getD (o + 2) 0).toNat (out.getD (o + 3) 0).toNat then
+        return s!"FAIL pixel ({x},{y}) = {hexOfBuf (out.extract o (o + 4))} is not the texel at Z-order offset {tileOffset w x y} (value {v}) within one step"
+  return "ok"
+
+open Spec.Etc1 Spec.Morton in
+def judgeEtc (alpha : Bool) (w h : Nat) (payload out : Buf) : String := Id.run do
+  if out.size ≠ 4 * w * h then return s!"FAIL output has {out.size} bytes, expected {4 * w * h}"
+  for y in [0:h] do
+    for x in [0:w] do
+      let bi := etcBlock w x y
+      let word := wordAt payload w alpha x y
+      let o := (y * w + x) * 4
+      if decide (Legal word) then
+        for ch in [0:3] do
+          if ((out.getD (o + ch) 0).toNat : Int) ≠ channel word (x % 4) (y % 4) ch then
+            return s!"FAIL pixel ({x},{y}) channel {ch} = {(out.getD (o + ch) 0).toNat}, ETC1 rules give {channel word (x % 4) (y % 4) ch} (block {bi}, word {word})"
+      if alpha then
+        let a := alphaNibble (alphaWordAt payload w alpha x y) (x % 4) (y % 4)
+        if ¬ Spec.Linear.withinStep 4 a (out.getD (o + 3) 0).toNat then
+          return s!"FAIL pixel ({x},{y}) alpha = {(out.getD (o + 3) 0).toNat}, nibble {a}"
+  return "ok"
+
+open Spec.Linear in
+def judgeRgb5a3 (payload out : Buf) : String := Id.run do
+  let n := payload.size / 2
+  if out.size ≠ 4 * n then return s!"FAIL output has {out.size} bytes, expected {4 * n}"
+  for i in [0:n] do
+    let v := be16At payload (2 * i)
+    let o := 4 * i
+    if ¬ pixelOk (rgb5a3Layout v) v (out.getD o 0).toNat (out.getD (o + 1) 0).toNat (out.getD (o + 2) 0).toNat (out.getD (o + 3) 0).toNat then
+      return s!"FAIL value {v} decoded to {hexOfBuf (out.extract o (o + 4))}"
+  return "ok"
+
+open Spec.Linear Spec.Morton in
+def judgeCi8 (w h : Nat) (palette image out : Buf) : String := Id.run do
+  if out.size ≠ 4 * w * h then return s!"FAIL output has {out.size} bytes, expected {4 * w * h}"
+  for y in [0:h] do
+    for x in [0:w] do
+      let idx := (image.getD (ci8Offset (pad8 w) x y) 0).toNat
+      let v := be16At palette (2 * idx)
+      let o := (y * w + x) * 4
+      if ¬ pixelOk (rgb5a3Layout v) v (out.getD o 0).toNat (out.getD (o + 1) 0).toNat (out.getD (o + 2) 0).toNat (out.getD (o + 3) 0).toNat then
+        return s!"FAIL pixel ({x},{y}) = {hexOfBuf (out.extract o (o + 4))}, palette entry {idx} = {v} (block offset {ci8Offset (pad8 w) x y})"
+  return "ok"
+
+/-- `implFields` = id, profile, outcome… -/
+def implOk (i : List String) : Option Buf :=
+  if i.getD 2 "" == "ok" then some (bufOfHex (i.getD 3 "-")) else none
+
+def inDomain3ds (fmt w h : Nat) (payload : Buf) : Bool :=
+  match Spec.Tex.bitsPerPixel fmt with
+  | none => false
+  | some bits => Spec.Tex.isPow2From8 w && Spec.Tex.isPow2From8 h && w ≤ 1024 && h ≤ 1024 &&
+      payload.size * 8 == bits * w * h
+
+def oracle3ds (fmt w h : Nat) (payload : Buf) (i : List String) : String :=
+  if !inDomain3ds fmt w h payload then "ok skip"
+  else match implOk i with
+    | none => "FAIL the decoder must succeed on this input, got " ++ " ".intercalate (i.drop 2)
+    | some out =>
+      if fmt == 12 then judgeEtc false w h payload out
+      else if fmt == 13 then judgeEtc true w h payload out
+      else match Spec.Linear.layout fmt with
+        | some l => judgeTiled l w h payload out
+        | none => "ok skip"
+
+def cfOf : String → Option ColorFormat
+  | "RGBA8" => some .RGBA8 | "RGB5A3" => some .RGB5A3 | "CI8" => some .CI8
+  | "Unrecognized" => some .Unrecognized | _ => none
 
 def family : Family where
   State := Unit
   init := ()
-  step := fun _ _ _ => ((), "unimplemented", "FAIL unimplemented")
+  step := fun _ c i =>
+    let prof := i.getD 1 "dev"
+    let p := profileOf prof
+    let out (m o : String) : Unit × String × String := ((), prof ++ " " ++ m, o)
+    match c with
+    | [_, "px", fmt, w, h, payload] =>
+      let (fmt, w, h, payload) := (fmt.toNat!, w.toNat!, h.toNat!, bufOfHex payload)
+      if payload.size ≠ payloadSize fmt w h then out "bad-case" "ok skip bad-case" else
+      out (resBuf (decodePixelData p payload w h fmt)) (oracle3ds fmt w h payload i)
+    | [_, "etc", alpha, w, h, payload] =>
+      let (alpha, w, h, payload) := (alpha == "1", w.toNat!, h.toNat!, bufOfHex payload)
+      out (resBuf (Etc1.decode p payload w h alpha)) (oracle3ds (if alpha then 13 else 12) w h payload i)
+    | [_, "cf", f, payload] =>
+      match cfOf f with
+      | none => out "bad-case" "FAIL bad-case"
+      | some cf =>
+        let payload := bufOfHex payload
+        out (resBuf (cf.decode payload))
+          (if cf == .RGB5A3 && payload.size % 2 == 0 then
+            match implOk i with
+            | some o => judgeRgb5a3 payload o
+            | none => "FAIL RGB5A3 values must decode, got " ++ " ".intercalate (i.drop 2)
+           else "ok skip")
+    | [_, "cfi", f, data, palette] =>
+      match cfOf f with
+      | none => out "bad-case" "FAIL bad-case"
+      | some cf => out (resBuf (cf.decodeIndexed (bufOfHex data) (bufOfHex palette))) "ok skip"
+    | [_, "ci8", w, h, palette, image] =>
+      let (w, h, palette, image) := (w.toNat!, h.toNat!, bufOfHex palette, bufOfHex image)
+      let m := resBuf (tplDecodeImage 2 palette 9 h w image)
+      let visibleOk := (List.range h).all fun y => (List.range w).all fun x =>
+        (image.getD (Spec.Morton.ci8Offset (Spec.Morton.pad8 w) x y) 0).toNat < palette.size / 2
+      let dom := 1 ≤ w && 1 ≤ h && w ≤ 1024 && h ≤ 1024 && palette.size % 2 == 0 &&
+        image.size == Spec.Tex.pad h 4 * Spec.Tex.pad w 8 && visibleOk
+      out m (if !dom then "ok skip" else
+        match implOk i with
+        | some o => judgeCi8 w h palette image o
+        | none => "FAIL a CI8 image with in-range indices must decode, got " ++ " ".intercalate (i.drop 2))
+    | [_, "probe", fmt, w, h] =>
+      let (fmt, w, h) := (fmt.toNat!, w.toNat!, h.toNat!)
+      -- the harness computes the required size in integer arithmetic: bits-per-pixel table × w × h / 8
+      let need := Pixel.bppTimes2 fmt * w * h / 2
+      let full := singleCtpk fmt w h (Buf.zeros need)
+      let a := resClass (Containers.ctpkRead p full)
+      let b := if need = 0 then "-" else resClass (Containers.ctpkRead p (full.extract 0 (full.size - 1)))
+      -- oracle: with exactly the required number of payload bytes a supported texture reads, with one
+      -- byte less it must not (the payload is cut)
+      let o :=
+        if (Spec.Tex.bitsPerPixel fmt).isSome && Spec.Tex.isPow2From8 w && Spec.Tex.isPow2From8 h then
+          if i.getD 2 "" == "ok" && (i.getD 3 "").startsWith "err" then "ok"
+          else "FAIL payload size: exact size must read, one byte less must be an error; got " ++ " ".intercalate (i.drop 2)
+        else "ok skip"
+      out (a ++ " " ++ b) o
+    | _ => out "bad-case" "FAIL bad-case"
 
 end Driver.Pixel
